@@ -640,8 +640,24 @@ def subst(args, k, o):
     return [k if x == K else (o if x == O else b(x)) for x in args]
 
 
+SHARD_CONSTS = None        # (shards, FNV offset basis, FNV prime) as get_shard_index in the source has them
+
+
 def shard(key):
-    return fnv1a(key) % 16
+    """the shard of a key computed the way the engine does it: constants read from get_shard_index by the translator
+    (so that "same shard / other shard" stays true if they change); the known FNV-1a 64 mod 16 when it cannot be read"""
+    global SHARD_CONSTS
+    if SHARD_CONSTS is None:
+        try:
+            import extract
+            import watch_facts
+            SHARD_CONSTS = watch_facts.shard_consts(extract.src, extract.strip_comments, extract.fn_body) or (16, 0xCBF29CE484222325, 0x100000001B3)
+        except Exception:
+            SHARD_CONSTS = (16, 0xCBF29CE484222325, 0x100000001B3)
+    n, h, prime = SHARD_CONSTS
+    for c in key:
+        h = ((h ^ c) * prime) & ((1 << 64) - 1)
+    return h % n
 
 
 def pick_keys(r):
@@ -678,9 +694,12 @@ def finish_tx(s, tag):
     return s.do(A, ["EXEC"])
 
 
-def matrix_cell(s, label, args, ostate, state, path, wk, ok, watched=None):
+def matrix_cell(s, label, args, ostate, state, path, wk, ok, watched=None, second=None):
     """set `wk` up in `state`, WATCH `watched` (default wk), run the command through `path`, EXEC"""
-    s.begin({"kind": "matrix", "cmd": label, "state": state, "path": path, "key": hx(wk)})
+    cell = {"kind": "matrix", "cmd": label, "state": state, "path": path, "key": hx(wk)}
+    if second:
+        cell.update({"second_key": hx(ok), "second_key_in": second, "second_key_before": ostate})
+    s.begin(cell)
     d1 = (s.base_db + 7) % 16
     for st in STATES[state]:
         s.do(B, subst(st, wk, ok))
@@ -1011,7 +1030,8 @@ def run_round(rep, rows, quirks, r, base_db, tier, n_round):
         for k in (wk, same_k, diff_k, PROBE):
             info = s.ask("info 0 %s" % hx(k))
             if not info.startswith("shard=%d " % shard(k)):
-                raise InternalError("shard function of the model differs from FNV-1a mod 16 on %r: %s" % (k, info))
+                # the engine's shard function is no longer the model's (tree_shard_function refuses): the search goes on
+                rep.extra["shard_function_differs_from_model"] = "%r: engine %d, model %s" % (k, shard(k), info)
         # ---- matrix on the watched key
         cells = []
         for label, args, ostate, only in COMMANDS:
@@ -1019,14 +1039,22 @@ def run_round(rep, rows, quirks, r, base_db, tier, n_round):
                 if only and state not in only:
                     continue
                 for path in PATHS + SELECT_PATHS:
-                    cells.append((label, args, ostate, state, path))
+                    if ostate is None:
+                        cells.append((label, args, ostate, state, path, other_k, None))
+                    else:
+                        # a command with two keys: the storage function may take another branch when both keys live in
+                        # one shard (rename: one lock / two locks) - both, for every state of both keys and every path
+                        cells.append((label, args, ostate, state, path, same_k, "same-shard"))
+                        cells.append((label, args, ostate, state, path, diff_k, "other-shard"))
         r.shuffle(cells)
         if tier == "quick":
             budget = int(os.environ.get("VERIF_C08_CELLS", "0")) or len(cells)
             cells = cells[:budget]
-        for label, args, ostate, state, path in cells:
-            st = matrix_cell(s, label, args, ostate, state, path, wk, other_k)
-            rep.nontrivial((label, state, path, st["impl"].split()[0], st["model"]))
+        for label, args, ostate, state, path, okey, owhere in cells:
+            st = matrix_cell(s, label, args, ostate, state, path, wk, okey, second=owhere)
+            if owhere:
+                rep.count("matrix.two-key.%s.second-key-%s.%s" % (label, owhere, st["impl"].split()[0]))
+            rep.nontrivial((label, state, path, owhere, st["impl"].split()[0], st["model"]))
             rep.count("matrix.%s.%s" % (path, st["impl"].split()[0]))
             rep.count("verdict." + st["model"].replace(" ", "/"))
             if len(rep.samples) < 6 and st["impl"] == "nil" and label not in [x["cell"]["cmd"] for x in rep.samples if "cell" in x]:
